@@ -87,6 +87,12 @@ CHECKS = {
             "Trusted: transfer.py, scipy-HiGHS for the interval problems, C01's balance oracle. Grid ends at an ambiguous wall "
             "time are excluded (pandas cannot build the interval range).",
             "DESIGN.md 5 C14"),
+    "C15": ("property-based testing (Hypothesis): invariant over the rebuilt problem (bounds pinned exactly on the window, untouched elsewhere) + re-optimisation",
+            "Exploration: generated portfolios with multi-row variables (transport, multi-commodity, CHP fuel) are optimised, "
+            "rebuilt with fix_time_window as mask / index list / date and same or new prices; bounds are compared variable by "
+            "variable with the previous solution and with the unfixed problem built from fresh objects, then re-optimised.",
+            "Trusted: mapping rows tell which steps a variable belongs to (checked by C07). Dates between grid points only.",
+            "DESIGN.md 5 C15"),
     "C19": ("property-based testing (Hypothesis) against an independent UTC-arithmetic reference model",
             "Exploration: thousands of generated grids / windows / interval lists / price inputs per run are compared "
             "with a reference written from the statement (own time arithmetic). No solver, so the comparison is exact; "
